@@ -4,18 +4,21 @@ import PyodaProofs.C14
 #print axioms Pyoda.C14.read_write_varint
 #print axioms Pyoda.C14.read_write_count
 #print axioms Pyoda.C14.read_write_signedCount
-#print axioms Pyoda.C14.read_write_milliseconds
-#print axioms Pyoda.C14.read_write_offset
+#print axioms Pyoda.C14.signedCount_form
 #print axioms Pyoda.C14.read_write_int64
+#print axioms Pyoda.C14.read_write_milliseconds
+#print axioms Pyoda.C14.milliseconds_form
+#print axioms Pyoda.C14.read_write_offset
 #print axioms Pyoda.C14.read_write_string_inline
 #print axioms Pyoda.C14.read_write_string_pooled
 #print axioms Pyoda.C14.read_write_transition
+#print axioms Pyoda.C14.transition_form
 #print axioms Pyoda.C14.transition_subtick_truncates
+#print axioms Pyoda.C14.write_dom_raises_byte
 #print axioms Pyoda.C14.write_dom_raises_count
 #print axioms Pyoda.C14.write_dom_raises_milliseconds
-#print axioms Pyoda.C14.write_dom_raises_byte
-#print axioms Pyoda.C14.milliseconds_form
-#print axioms Pyoda.C14.transition_form
+#print axioms Pyoda.C14.write_dom_raises_transition
 #print axioms Pyoda.C14.pinned_milliseconds_counterexample
 #print axioms Pyoda.C14.read_write_yearOffset
 #print axioms Pyoda.C14.read_write_alternatingMap
+#print axioms Pyoda.C14.read_write_recurrence
